@@ -22,7 +22,9 @@ const SST: [&str; 3] = ["alpha", "b\u{e9}ta", "\u{20ac}uro \u{1F600}"];
 const ONE: [u8; 3] = [0x1E, 1, 0];
 
 #[derive(Clone, Debug, PartialEq)]
-enum Exp { Val(Data), Numeric(f64, &'static str) }
+/// `Uninterpreted`: a cell record of a kind the statement does not list (BrtCellRString): the position may read as Empty or as
+/// the record's text; what matters is that its neighbours are untouched
+enum Exp { Val(Data), Numeric(f64, &'static str), Uninterpreted(String) }
 
 fn kinds() -> Vec<(String, BVal, Exp)> {
     let mut v = vec![];
@@ -77,11 +79,17 @@ fn build(ch: &mut Chooser, anchor: (u32, u32), positions: &[(u32, u32)], thoroug
     let mut exp = BTreeMap::new();
     let mut desc = vec![];
     items.extend(noise(ch));
-    for ((r, c), k) in &chosen {
+    for (ci, ((r, c), k)) in chosen.iter().enumerate() {
         let (name, val, e) = ks[*k].clone();
         items.push(BItem::Cell { row: *r, col: *c, style: 0, val });
         exp.insert((*r, *c), e);
         desc.push(json!([r, c, name]));
+        // an inline rich-text cell (BrtCellRString, a kind the reader does not interpret) in the free column between two cells of a row
+        if let Some(((r2, c2), _)) = chosen.get(ci + 1) { if r2 == r && *c2 >= c + 2 && ch.flag("uninterpreted-rich-string-cell-between-two-cells") {
+            let mut d = (c + 1).to_le_bytes().to_vec(); d.extend([0u8, 0, 0, 0]); d.push(0); d.extend(ws("rich text"));
+            items.push(BItem::Raw(0x3E, d));
+            exp.insert((*r, c + 1), Exp::Uninterpreted("rich text".into()));
+        } }
         items.extend(noise(ch));
         // a blank (style-only) cell to the right: must not count
         if ch.flag("blank-cell-after") { items.push(BItem::Cell { row: *r, col: (*c + 2).min(16383), style: 0, val: BVal::Blank }); }
@@ -122,6 +130,7 @@ fn run_case(rep: &Report, ch: &mut Chooser, anchor: (u32, u32), positions: &[(u3
                     let ok = match exp.get(&(row, col)) {
                         None => matches!(got, Data::Empty),
                         Some(Exp::Val(d)) => *d == got,
+                        Some(Exp::Uninterpreted(t)) => matches!(got, Data::Empty) || got == Data::String(t.clone()),
                         Some(Exp::Numeric(v, must)) => match &got {
                             Data::Float(f) => (f.to_bits() == v.to_bits() || f == v) && *must != "int",
                             Data::Int(i) => *i as f64 == *v && *must != "float",
@@ -129,7 +138,7 @@ fn run_case(rep: &Report, ch: &mut Chooser, anchor: (u32, u32), positions: &[(u3
                         },
                     };
                     if !ok {
-                        let kind = match exp.get(&(row, col)) { None => "spurious".to_string(), Some(Exp::Val(d)) => format!("{d:?}").split('(').next().unwrap_or("").to_string(), Some(Exp::Numeric(_, m)) => format!("numeric-{m}") };
+                        let kind = match exp.get(&(row, col)) { None => "spurious".to_string(), Some(Exp::Val(d)) => format!("{d:?}").split('(').next().unwrap_or("").to_string(), Some(Exp::Uninterpreted(_)) => "uninterpreted-record".to_string(), Some(Exp::Numeric(_, m)) => format!("numeric-{m}") };
                         rep.fail(&format!("value/{kind}"), &format!("at ({row},{col}) got {got:?}, expected {:?}", exp.get(&(row, col))), replay);
                         break 'outer;
                     }
